@@ -506,6 +506,7 @@ class Fn:
             return st, False
         allowed = None
         target = None
+        cut = 0
         if c.get("k") == "binop" and c["op"] in ("==", "!=", "<", ">", "<=", ">="):
             l, r = _strip(c["l"]), _strip(c["r"])
             # pointer comparison between object parameters: decided by the scenario
@@ -532,16 +533,22 @@ class Fn:
             if target is not None:
                 if not truth:
                     op = {"<": ">=", ">": "<=", "<=": ">", ">=": "<", "==": "!=", "!=": "=="}[op]
+                # cut: the sign class that the constant splits - what survives of it is not known to be attained any more (a later test
+                # may exclude the rest: `n > 1`, `n == 1`, `n == 0` leave only negatives although each test alone keeps "positive")
                 if cst == 0:
                     allowed = {"<": N, ">": P, "<=": N | Z, ">=": Z | P, "==": Z, "!=": N | P}[op]
                 elif cst == 1:
                     allowed = {"<": N | Z, ">=": P, ">": P, "==": P, "<=": TOP, "!=": TOP}[op]
+                    cut = 0 if op in ("<", ">=") else P
                 elif cst == -1:
                     allowed = {">": Z | P, "<=": N, "<": N, "==": N, ">=": TOP, "!=": TOP}[op]
+                    cut = 0 if op in (">", "<=") else N
                 elif cst > 1:
                     allowed = {">": P, ">=": P, "==": P}.get(op, TOP)
+                    cut = P
                 else:
                     allowed = {"<": N, "<=": N, "==": N}.get(op, TOP)
+                    cut = N
         elif self.atom(c) is not None:
             target = self.atom(c)
             allowed = (N | P) if truth else Z
@@ -563,11 +570,11 @@ class Fn:
                     s2 = v2.signs & img(v2.link[1], rs)
                     if s2 == 0:
                         return None, True
-                    st[k2] = Val(s2, v2.tags, v2.link, v2.susp, v2.att)
+                    st[k2] = Val(s2, v2.tags, v2.link, v2.susp, v2.att & ~img(v2.link[1], preimg(v.link[1], cut)) if cut else v2.att)
         if v.tags:
             self.blur(st, v.tags, keep=target, root=root, branch=branch)
         # a comparison with a non-zero constant cuts a sign class in two: the surviving part is still attained, exactness is kept
-        st[target] = Val(ns, v.tags, v.link, v.susp, v.att)
+        st[target] = Val(ns, v.tags, v.link, v.susp, v.att & ~cut)
         # this arm is known to be taken when one of the signs it admits is attained (or it admits everything the quantity can be)
         self.last_sure = bool(v.attained & allowed) or ns == v.signs
         return st, True
@@ -1348,7 +1355,7 @@ def analyse_realloc_sizes(fn, prop, F, stats):
 
     def hook(cond, st, line):
         x = alloc_compare(cond)
-        if x is None or st.get(UNSURE):
+        if x is None:
             return
         v = E.eval(x, st)
         rec = found.setdefault(line, [0, 0, None])
@@ -1403,10 +1410,92 @@ def run_realloc(prop="C04", tier="quick"):
     if not got.get("fix_realloc_bad") or got.get("fix_realloc_good"):
         raise AnalysisBroken("R-SIGN.alloc fixtures: %r" % dict(got))
     st = res["stats"]
-    if st["realloc_sites"] < 30:
-        raise AnalysisBroken("R-SIGN.alloc: only %d _mpz_realloc sites found (floor 30)" % st["realloc_sites"])
+    if st["realloc_sites"] < 60:
+        raise AnalysisBroken("R-SIGN.alloc: only %d _mpz_realloc sites found (floor 60; today 124)" % st["realloc_sites"])
     res["stats"] = dict(st)
     res["obligations"] = st["realloc_sites"]
+    res["undecided"] = st.get("undecided", 0)
+    res["notes"].append("fixtures: 1 positive fired, 1 negative silent")
+    res["exhaustive"] = True
+    return res
+
+
+# ---- limb counts handed to mpn routines are never negative (C04) -----------------------------------------------------------------
+NOT_COUNTS = {("__gmpn_get_d", 2)}      # mpn_get_d (ptr, size, SIGN, exp): the third argument carries the sign of the result
+
+
+def analyse_mpn_sizes(fn, prop, F, stats):
+    """R-SIGN.count: an argument of type mp_size_t handed to an mpn routine is a limb count; it never is a quantity for which a negative sign
+    is attained from the signs of the operands (SIZ (u) where ABSIZ (u) is meant: the routine would run over 2^64 - |n| limbs)."""
+    has = False
+    for b in fn["blocks"]:
+        for el in b["elems"]:
+            e = el["e"]
+            if e.get("k") == "call" and (e.get("callee") or "").startswith("__gmpn_") and any(p.get("t") == "mp_size_t" for p in e.get("params", [])):
+                has = True
+    if not has:
+        return
+    E = Fn(fn, {})
+    found = {}
+    scalar_names = {p["name"] for p in fn["params"] if not struct_of(p.get("ct"))}
+    orig = E.do_call
+
+    def do_call(e, st):
+        c = e.get("callee") or ""
+        # judged also on arms whose feasibility is not established: a value that still attains a sign there got it before the branch, from
+        # operands the branch does not mention (values assigned on such arms attain nothing)
+        if c.startswith("__gmpn_"):
+            for i, p in enumerate(e.get("params", [])):
+                if p.get("t") == "mp_size_t" and i < len(e.get("args", [])) and (c, i) not in NOT_COUNTS:
+                    v = E.eval(e["args"][i], st)
+                    rec = found.setdefault((e.get("line"), c, i), [0, 0, None])
+                    rec[0] |= v.signs
+                    if v.attained & N and v.tags and not (v.tags & scalar_names):
+                        rec[1] |= N
+                        rec[2] = sorted(v.tags)
+        return orig(e, st)
+    E.do_call = do_call
+    outs = [p for p in fn["params"] if struct_of(p.get("ct")) and "*" in p.get("ct", "") and not p.get("pc")]
+    scen = list(scenarios(E, outs[0]["id"])) if outs else [("distinct", {})]
+    for label, unify in scen[:4]:
+        if E.run(entry_model(E), unify, {o["id"] for o in outs}) is None:
+            stats["budget"] += 1
+    for (line, c, i), (signs, bad, tags) in found.items():
+        stats["count_arguments"] += 1
+        if bad:
+            F.append(Finding(prop, "R-SIGN.count", fn["file"], line, fn["name"], "negative-limb-count:%s:%d" % (c, i),
+                             "%s passes a limb count to %s (argument %d) at line %d that is negative for some operands (its sign comes from %s)"
+                             % (fn["name"], c, i + 1, line, ", ".join(tags))))
+        elif signs & N == 0:
+            stats["proved"] += 1
+        else:
+            stats["undecided"] += 1
+
+
+def run_counts(prop="C04", tier="quick"):
+    res = dict(findings=[], stats=collections.Counter(), samples=[], notes=[])
+    cfg = sa.cfg_built()
+    cfg = sa.Config("built-sign", units=cfg.units, flags=list(cfg.flags), extra_files=[FIXTURE])
+    ex = sa.export(cfg)
+    sa.check_errors(ex)
+    fx = []
+    for path, fn in ex.functions():
+        if path == FIXTURE:
+            if fn["name"].startswith("fix_count_"):
+                analyse_mpn_sizes(fn, prop, fx, collections.Counter())
+            continue
+        rel = relpath(path)
+        if not (rel.startswith("mpz/") or rel.startswith("mpq/") or rel.startswith("mpf/")):
+            continue
+        analyse_mpn_sizes(fn, prop, res["findings"], res["stats"])
+    got = collections.Counter(f.function for f in fx)
+    if not got.get("fix_count_bad") or got.get("fix_count_good"):
+        raise AnalysisBroken("R-SIGN.count fixtures: %r" % dict(got))
+    st = res["stats"]
+    if st["count_arguments"] < 150:
+        raise AnalysisBroken("R-SIGN.count: only %d limb-count arguments found (floor 150; today 379)" % st["count_arguments"])
+    res["stats"] = dict(st)
+    res["obligations"] = st["count_arguments"]
     res["undecided"] = st.get("undecided", 0)
     res["notes"].append("fixtures: 1 positive fired, 1 negative silent")
     res["exhaustive"] = True
